@@ -667,6 +667,9 @@ func (loader *Loader) resolveHeaderRef(doc *T, component *HeaderRef, documentPat
 			}
 			component.Value = resolved.Value
 			component.setRefPath(resolved.RefPath())
+			// the target's own references were resolved above, against its own document
+			loader.unvisitRef(key, component.Value)
+			return nil
 		}
 		defer loader.unvisitRef(key, component.Value)
 	}
@@ -762,6 +765,9 @@ func (loader *Loader) resolveParameterRef(doc *T, component *ParameterRef, docum
 			}
 			component.Value = resolved.Value
 			component.setRefPath(resolved.RefPath())
+			// the target's own references were resolved above, against its own document
+			loader.unvisitRef(key, component.Value)
+			return nil
 		}
 		defer loader.unvisitRef(key, component.Value)
 	}
@@ -828,6 +834,9 @@ func (loader *Loader) resolveRequestBodyRef(doc *T, component *RequestBodyRef, d
 			}
 			component.Value = resolved.Value
 			component.setRefPath(resolved.RefPath())
+			// the target's own references were resolved above, against its own document
+			loader.unvisitRef(key, component.Value)
+			return nil
 		}
 		defer loader.unvisitRef(key, component.Value)
 	}
@@ -881,6 +890,9 @@ func (loader *Loader) resolveResponseRef(doc *T, component *ResponseRef, documen
 			}
 			component.Value = resolved.Value
 			component.setRefPath(resolved.RefPath())
+			// the target's own references were resolved above, against its own document
+			loader.unvisitRef(key, component.Value)
+			return nil
 		}
 		defer loader.unvisitRef(key, component.Value)
 	}
@@ -946,6 +958,9 @@ func (loader *Loader) resolveSchemaRef(doc *T, component *SchemaRef, documentPat
 			}
 			component.Value = resolved.Value
 			component.setRefPath(resolved.RefPath())
+			// the target's own references were resolved above, against its own document
+			loader.unvisitRef(key, component.Value)
+			return nil
 		}
 		defer loader.unvisitRef(key, component.Value)
 	}
@@ -1119,6 +1134,9 @@ func (loader *Loader) resolveCallbackRef(doc *T, component *CallbackRef, documen
 			}
 			component.Value = resolved.Value
 			component.setRefPath(resolved.RefPath())
+			// the target's own references were resolved above, against its own document
+			loader.unvisitRef(key, component.Value)
+			return nil
 		}
 		defer loader.unvisitRef(key, component.Value)
 	}
